@@ -40,6 +40,10 @@ type Case struct {
 	Cfg    Cfg      `json:"cfg"`
 	NHosts int      `json:"nhosts"` // servers of the fake cluster (0 = 1); the first is the one connected to
 	Faults []*Fault `json:"faults"` // one entry per interrupted start (nil = start without failure)
+	// round 7: shard of each host (missing: host i = shard i; only matters for Replicated tables) and the host each
+	// start connects to, one entry per run incl. the two undisturbed ones (missing: host 0)
+	Shards []int `json:"shards,omitempty"`
+	Conn   []int `json:"conn,omitempty"`
 	Runs   []Run    `json:"runs"`   // the interrupted starts, then two starts without failure
 	Final  Final    `json:"final"`
 }
@@ -55,8 +59,14 @@ func (quiet) Info(...any)  {}
 const dbName = "qdb18"
 
 // one process start
-func start(db *DB, cfg Cfg, f *Fault) Run {
-	conn := &Conn{db: db, ctx: Ctx{DB: dbName}, fault: f}
+func start(db *DB, cfg Cfg, f *Fault) Run { return startAt(db, cfg, f, 0) }
+
+// one process start that reaches the cluster through host `at`
+func startAt(db *DB, cfg Cfg, f *Fault, at int) Run {
+	if at < 0 || at >= len(db.Hosts) {
+		at = 0
+	}
+	conn := &Conn{db: db, ctx: Ctx{DB: dbName}, fault: f, at: at}
 	mode := maintenance.CLUST_MODE_SINGLE
 	if cfg.Cloud {
 		mode = maintenance.CLUST_MODE_CLOUD
@@ -118,12 +128,62 @@ func runCase(c *Case) {
 		c.NHosts = 1
 	}
 	db := NewDB(c.NHosts)
-	c.Runs = nil
-	for _, f := range c.Faults {
-		c.Runs = append(c.Runs, start(db, c.Cfg, f))
+	db.Shard = c.Shards
+	at := func(i int) int {
+		if i < len(c.Conn) {
+			return c.Conn[i]
+		}
+		return 0
 	}
-	c.Runs = append(c.Runs, start(db, c.Cfg, nil), start(db, c.Cfg, nil))
+	c.Runs = nil
+	for i, f := range c.Faults {
+		c.Runs = append(c.Runs, startAt(db, c.Cfg, f, at(i)))
+	}
+	n := len(c.Faults)
+	c.Runs = append(c.Runs, startAt(db, c.Cfg, nil, at(n)), startAt(db, c.Cfg, nil, at(n+1)))
 	c.Final = db.Final()
+}
+
+// elsewhere (round 7): the clustered configurations on 2 and 3 hosts laid out in shards; the LAST start (the one that
+// must find the database up to date) reaches the cluster through another host: a replica of the same shard or a host
+// of another shard.  Histories: no failure, and `per` histories with one interrupted start before.
+func elsewhere(r *rand.Rand, per int, out *hx.Out) {
+	id := 0
+	names := []string{"single", "cloud", "clustered", "cloud+clustered"}
+	layouts := []struct {
+		shards []int
+		last   int
+		what   string
+	}{
+		{[]int{0, 1}, 1, "other-shard"},
+		{[]int{0, 0, 1}, 1, "other-replica"},
+		{[]int{0, 0, 1}, 2, "other-shard"},
+		{[]int{0, 1, 1}, 2, "other-shard"},
+	}
+	for ci, cfg := range mainCfgs {
+		if !cfg.Clustered {
+			continue
+		}
+		for _, l := range layouts {
+			nh := len(l.shards)
+			log := start(NewDB(nh), cfg, nil).Log
+			for j := 0; j <= per; j++ {
+				c := Case{ID: id, Class: names[ci] + "/last-start-through-" + l.what, Cfg: cfg, NHosts: nh, Shards: l.shards}
+				if j > 0 {
+					f := &Fault{N: r.Intn(len(log)), Kind: "before"}
+					if r.Intn(2) == 0 {
+						f.Kind = "after"
+					}
+					c.Faults = []*Fault{f}
+				}
+				c.Conn = make([]int, len(c.Faults)+2)
+				c.Conn[len(c.Conn)-1] = l.last
+				runCase(&c)
+				out.Put(c)
+				id++
+			}
+		}
+	}
 }
 
 var mainCfgs = []Cfg{
@@ -206,6 +266,14 @@ func gen(r *rand.Rand, id int) Case {
 		}
 		c.Faults = append(c.Faults, f)
 		start(db, c.Cfg, f)
+	}
+	if c.NHosts > 1 && r.Intn(2) == 0 {
+		for i := 0; i < c.NHosts; i++ {
+			c.Shards = append(c.Shards, r.Intn(2))
+		}
+		c.Conn = make([]int, len(c.Faults)+2)
+		c.Conn[len(c.Conn)-1] = r.Intn(c.NHosts)
+		cl += "+last-start-elsewhere"
 	}
 	c.Class = cl
 	return c
@@ -381,6 +449,7 @@ func main() {
 	exhaustive := flag.Bool("exhaustive", false, "every call x {before, after} of the first start, main configurations")
 	concN := flag.Int("conc", 0, "this many generated schedules of two concurrent starters")
 	concCases := flag.String("conc-cases", "", "file with concurrent cases (cfg, nhosts, sched) to run")
+	elsewhereN := flag.Int("elsewhere", -1, "clustered configurations x shard layouts, the last start through another host: the clean history plus this many with one interrupted start")
 	partialN := flag.Int("partial", 0, "clustered configurations: one in N script statements of a first start completes on some hosts only (1 = every statement)")
 	bootN := flag.Int("boot", -1, "bootstrap path (ctrl.Init over the fake TCP server): the fixed cases plus this many generated ones")
 	bootCases := flag.String("boot-cases", "", "file with bootstrap cases (cfg, nhosts, default, ttl0, faults) to run")
@@ -410,6 +479,10 @@ func main() {
 			runConc(&c)
 			out.Put(c)
 		})
+		return
+	}
+	if *elsewhereN >= 0 {
+		elsewhere(hx.Rand(f.Seed), *elsewhereN, out)
 		return
 	}
 	if *partialN > 0 {
